@@ -546,10 +546,18 @@ def closed_facts(P):
     a && b false with a true -> b false, ...), to a fixpoint."""
     facts = [(norm(f), t) for f, t in P.facts]
     known = {flat(f): t for f, t in facts if not re.search(r'\|\||&&', f) or len(split_top(f, '||')) == 1 and len(split_top(f, '&&')) == 1}
+    def neg(e):
+        e = norm(e)
+        if e.startswith('!') and balanced(e[1:]) and len(split_top(e[1:], '||')) == 1 and len(split_top(e[1:], '&&')) == 1:
+            return norm(e[1:])
+        return None
     def val(e):
         fe = flat(e)
         if fe in known:
             return known[fe]
+        if neg(e) is not None:
+            v = val(neg(e))
+            return None if v is None else not v
         for op, unit in (('||', False), ('&&', True)):
             parts = split_top(e, op)
             if len(parts) > 1:
@@ -563,6 +571,9 @@ def closed_facts(P):
     def force(e, t):
         ch = False
         fe = flat(e)
+        if neg(e) is not None:
+            known.setdefault(fe, t)
+            return force(neg(e), not t)
         for op, unit in (('||', False), ('&&', True)):
             parts = split_top(e, op)
             if len(parts) > 1:
